@@ -9,11 +9,15 @@ SUBS = ["I_R", "divU", "gradp", "p", "state"]
 
 
 def gen_chk(seed, path, nspecies=3, nghost=None, aniso=True, time=None, nlevels=None, bf=4,
-            base_blocks=(1, 3), zero_y=False, header_int=None, origin=None, no_coord=False):
+            base_blocks=(1, 3), zero_y=False, header_int=None, origin=None, no_coord=False, scale=False):
     rng = random.Random(seed)
     nprng = np.random.default_rng(seed)
-    m = gen.gen_model(seed, ndims=3, nlevels=nlevels if nlevels else rng.randint(1, 3), nfields=1,
-                      aniso=aniso, bf=bf, base_blocks=base_blocks, origin=origin)
+    if scale:      # one box of a million cells (a state FAB of more than 4 million values) beside a thin one
+        m = gen.gen_model(seed, ndims=3, nlevels=1, nfields=1, aniso=aniso, base=[136, 96, 80],
+                          sizes=[[128, 8], [96], [80]], origin=origin)
+    else:
+        m = gen.gen_model(seed, ndims=3, nlevels=nlevels if nlevels else rng.randint(1, 3), nfields=1,
+                          aniso=aniso, bf=bf, base_blocks=base_blocks, origin=origin)
     g = nghost if nghost else rng.randint(1, 3)
     m.nghost = g
     m.nspecies = nspecies
